@@ -973,3 +973,305 @@ theorem runActs_abInv (cfg : Cfg) (d : Dag) (wf : WF d) (acts : List Act) (s s' 
     · simp at hr
 
 end PwVerif.Exec
+
+namespace PwVerif.Exec
+open PwVerif
+
+/-- only children of the composite ever leave `idle` -/
+def MemInv (d : Dag) (s : S) : Prop := ∀ i, s.st i ≠ .idle → d.member i
+
+theorem step_memInv (cfg : Cfg) (d : Dag) (wf : WF d) (s s' : S) (a : Act) (h : Inv cfg d s)
+    (hm : MemInv d s) (hs : step cfg d s a = some s') : MemInv d s' := by
+  intro x hx
+  cases a with
+  | start =>
+    simp only [step] at hs
+    split at hs
+    · rename_i i rest hph
+      obtain ⟨_, hrest, _⟩ := h.phase.rest _ hph
+      have hi := hrest i (by simp)
+      have hhot := core_hot_root d s i h.core hi.1 (wf.startRoots i hi.2)
+      obtain ⟨_, _, _, hoth, _⟩ := runNode_core d wf s i hhot
+      have key : (runNode d s i).1.st x ≠ .idle → d.member x := by
+        intro hx'
+        by_cases hxi : x = i
+        · subst hxi; exact Or.inl hi.2
+        · rw [hoth x hxi] at hx'; exact hm x hx'
+      split at hs
+      · rename_i s1 heq
+        have e1 : s1 = (runNode d s i).1 := by rw [heq]
+        simp only [Option.some.injEq] at hs; subst hs
+        exact key (by simpa [e1] using hx)
+      · rename_i s1 heq
+        have e1 : s1 = (runNode d s i).1 := by rw [heq]
+        split at hs <;> (simp only [Option.some.injEq] at hs; subst hs; exact key (by simpa [e1] using hx))
+    · simp at hs
+  | deliver =>
+    simp only [step] at hs
+    split at hs
+    · rename_i j i q hph hq
+      obtain ⟨hji, _, _, _, _⟩ := head_facts d s h.core j i q hq
+      split at hs
+      · rename_i hall
+        have hhot := pop_fire_core d wf s j i q h.core hq hall
+        obtain ⟨_, _, _, hoth, _⟩ := runNode_core d wf _ i hhot
+        have key : (runNode d { s with queue := q, received := updF s.received i [] } i).1.st x ≠ .idle →
+            d.member x := by
+          intro hx'
+          by_cases hxi : x = i
+          · subst hxi; right; intro he; rw [he] at hji; cases hji
+          · rw [hoth x hxi] at hx'; exact hm x hx'
+        split at hs
+        · rename_i s1 heq
+          have e1 : s1 = (runNode d { s with queue := q, received := updF s.received i [] } i).1 := by rw [heq]
+          simp only [Option.some.injEq] at hs; subst hs
+          exact key (by simpa [e1] using hx)
+        · rename_i s1 heq
+          have e1 : s1 = (runNode d { s with queue := q, received := updF s.received i [] } i).1 := by rw [heq]
+          simp only [Option.some.injEq] at hs; subst hs
+          exact key (by simpa [e1] using hx)
+      · simp only [Option.some.injEq] at hs; subst hs
+        exact hm x hx
+    · simp at hs
+  | complete k =>
+    simp only [step] at hs
+    split at hs
+    · split at hs
+      · rename_i hk
+        have hkm : d.member k := hm k (by simp [hk])
+        split at hs <;>
+          (simp only [Option.some.injEq] at hs; subst hs
+           by_cases hxk : x = k
+           · subst hxk; exact hkm
+           · exact hm x (by simpa [updF, hxk] using hx))
+      · simp at hs
+    · simp at hs
+  | exit =>
+    simp only [step] at hs
+    split at hs
+    · simp only [Option.some.injEq] at hs; subst hs; exact hm x hx
+    · simp at hs
+
+/-! ### termination: a potential that every action strictly decreases -/
+
+def weight (d : Dag) (s : S) (i : Nat) : Nat :=
+  match s.st i with
+  | .idle => 2 + (d.down i).length
+  | .out => 1 + (d.down i).length
+  | _ => 0
+
+def potential (d : Dag) (nodes : List Nat) (s : S) : Nat :=
+  s.queue.length + (nodes.map (weight d s)).sum + (match s.phase with | .run _ => 1 | _ => 0)
+
+theorem sum_map_congr_except (nodes : List Nat) (f g : Nat → Nat) (k : Nat) (hk : k ∉ nodes)
+    (h : ∀ x, x ≠ k → f x = g x) : (nodes.map f).sum = (nodes.map g).sum := by
+  induction nodes with
+  | nil => rfl
+  | cons a as ih =>
+    have hak : a ≠ k := fun e => hk (by simp [e])
+    simp only [List.map_cons, List.sum_cons, h a hak]
+    rw [ih (fun hm => hk (by simp [hm]))]
+
+/-- changing the weight of exactly one listed node changes the sum by the difference -/
+theorem sum_map_update (nodes : List Nat) (hn : nodes.Nodup) (f g : Nat → Nat) (k : Nat) (hk : k ∈ nodes)
+    (h : ∀ x, x ≠ k → f x = g x) : (nodes.map f).sum + g k = (nodes.map g).sum + f k := by
+  induction nodes with
+  | nil => cases hk
+  | cons a as ih =>
+    obtain ⟨ha, has⟩ := List.nodup_cons.mp hn
+    simp only [List.map_cons, List.sum_cons]
+    by_cases hak : a = k
+    · subst hak
+      rw [sum_map_congr_except as f g a ha h]
+      omega
+    · have hk' : k ∈ as := by
+        rcases List.mem_cons.mp hk with e | e
+        · exact absurd e.symm hak
+        · exact e
+      have := ih has hk'
+      rw [h a hak]
+      omega
+
+end PwVerif.Exec
+
+namespace PwVerif.Exec
+open PwVerif
+
+def P0 (d : Dag) (nodes : List Nat) (s : S) : Nat := s.queue.length + (nodes.map (weight d s)).sum
+
+theorem weight_change (d : Dag) (nodes : List Nat) (hn : nodes.Nodup) (s s' : S) (k : Nat) (hk : k ∈ nodes)
+    (hoth : ∀ x, x ≠ k → s'.st x = s.st x) :
+    (nodes.map (weight d s')).sum + weight d s k = (nodes.map (weight d s)).sum + weight d s' k := by
+  apply sum_map_update nodes hn _ _ k hk
+  intro x hx
+  simp [weight, hoth x hx]
+
+theorem emit_length (d : Dag) (k : Nat) : (emit d k).length = (d.down k).length := by simp [emit]
+
+/-- running a hot node (member of `nodes`) lowers the potential -/
+theorem runNode_P0 (d : Dag) (nodes : List Nat) (hn : nodes.Nodup) (s : S) (i : Nat)
+    (h : Core d s (some i)) (hi : i ∈ nodes) : P0 d nodes (runNode d s i).1 + 1 ≤ P0 d nodes s := by
+  obtain ⟨hidle, _⟩ := h.hotIdle i rfl
+  have hw : weight d s i = 2 + (d.down i).length := by simp [weight, hidle]
+  rw [runNode_hot d s i h]
+  split
+  · have := weight_change d nodes hn s (submit d s i) i hi (by intro x hx; simp [submit, updF, hx])
+    have hw' : weight d (submit d s i) i = 1 + (d.down i).length := by simp [weight, submit]
+    simp only [P0]
+    have hq : (submit d s i).queue = s.queue := rfl
+    rw [hq]; omega
+  · split
+    · have := weight_change d nodes hn s (finishFail (submit d s i) i s.errs) i hi
+        (by intro x hx; simp [finishFail, submit, updF, hx])
+      have hw' : weight d (finishFail (submit d s i) i s.errs) i = 0 := by simp [weight, finishFail]
+      simp only [P0]
+      have hq : (finishFail (submit d s i) i s.errs).queue = s.queue := rfl
+      rw [hq]; omega
+    · have := weight_change d nodes hn s (finishOk d (submit d s i) i) i hi
+        (by intro x hx; simp [finishOk, submit, updF, hx])
+      have hw' : weight d (finishOk d (submit d s i) i) i = 0 := by simp [weight, finishOk]
+      simp only [P0]
+      have hq : (finishOk d (submit d s i) i).queue = s.queue ++ emit d i := rfl
+      rw [hq, List.length_append, emit_length]; omega
+
+def phaseBit : Phase → Nat
+  | .run _ => 1
+  | _ => 0
+
+theorem potential_eq (d : Dag) (nodes : List Nat) (t : S) :
+    potential d nodes t = P0 d nodes t + phaseBit t.phase := by
+  simp only [potential, P0, phaseBit]
+
+theorem P0_congr (d : Dag) (nodes : List Nat) (t t' : S) (hst : t'.st = t.st) (hq : t'.queue = t.queue) :
+    P0 d nodes t' = P0 d nodes t := by
+  have : weight d t' = weight d t := by funext x; simp [weight, hst]
+  simp [P0, this, hq]
+
+theorem step_decreases (cfg : Cfg) (d : Dag) (wf : WF d) (nodes : List Nat) (hn : nodes.Nodup)
+    (hcover : ∀ i, d.member i → i ∈ nodes) (s s' : S) (a : Act) (h : Inv cfg d s) (hm : MemInv d s)
+    (hs : step cfg d s a = some s') : potential d nodes s' < potential d nodes s := by
+  rw [potential_eq, potential_eq]
+  cases a with
+  | start =>
+    simp only [step] at hs
+    split at hs
+    · rename_i i rest hph
+      obtain ⟨_, hrest, _⟩ := h.phase.rest _ hph
+      have hi := hrest i (by simp)
+      have hhot := core_hot_root d s i h.core hi.1 (wf.startRoots i hi.2)
+      have hdec := runNode_P0 d nodes hn s i hhot (hcover i (Or.inl hi.2))
+      split at hs
+      · rename_i s1 heq
+        have e1 : s1 = (runNode d s i).1 := by rw [heq]
+        simp only [Option.some.injEq] at hs; subst hs
+        have e : P0 d nodes { s1 with phase := Phase.run rest } = P0 d nodes s1 := P0_congr d nodes _ _ rfl rfl
+        rw [e, hph, e1]; simp only [phaseBit]; omega
+      · rename_i s1 heq
+        have e1 : s1 = (runNode d s i).1 := by rw [heq]
+        split at hs
+        · simp only [Option.some.injEq] at hs; subst hs
+          have e : P0 d nodes { s1 with phase := Phase.aborted } = P0 d nodes s1 := P0_congr d nodes _ _ rfl rfl
+          rw [e, hph, e1]; simp only [phaseBit]; omega
+        · simp only [Option.some.injEq] at hs; subst hs
+          have e : P0 d nodes { s1 with phase := Phase.run rest, errs := s1.errs ++ [i] } = P0 d nodes s1 :=
+            P0_congr d nodes _ _ rfl rfl
+          rw [e, hph, e1]; simp only [phaseBit]; omega
+    · simp at hs
+  | deliver =>
+    simp only [step] at hs
+    split at hs
+    · rename_i j i q hph hq
+      obtain ⟨hji, _, _, _, _⟩ := head_facts d s h.core j i q hq
+      have himem : i ∈ nodes := hcover i (Or.inr (by intro he; rw [he] at hji; cases hji))
+      have hqlen : s.queue.length = q.length + 1 := by rw [hq]; simp
+      split at hs
+      · rename_i hall
+        have hhot := pop_fire_core d wf s j i q h.core hq hall
+        have hdec := runNode_P0 d nodes hn _ i hhot himem
+        have hphase := runNode_phase d { s with queue := q, received := updF s.received i [] } i
+        have hpop : P0 d nodes { s with queue := q, received := updF s.received i [] } + 1 = P0 d nodes s := by
+          have : weight d { s with queue := q, received := updF s.received i [] } = weight d s := by
+            funext x; simp [weight]
+          simp only [P0, this, hqlen]; omega
+        split at hs
+        · rename_i s1 heq
+          have e1 : s1 = (runNode d { s with queue := q, received := updF s.received i [] } i).1 := by rw [heq]
+          simp only [Option.some.injEq] at hs; subst hs
+          have hp1 : s1.phase = .run [] := by rw [e1, hphase]; exact hph
+          rw [hp1, hph]; simp only [phaseBit]
+          rw [e1]; omega
+        · rename_i s1 heq
+          have e1 : s1 = (runNode d { s with queue := q, received := updF s.received i [] } i).1 := by rw [heq]
+          simp only [Option.some.injEq] at hs; subst hs
+          have e : P0 d nodes { s1 with errs := s1.errs ++ [i] } = P0 d nodes s1 := P0_congr d nodes _ _ rfl rfl
+          have hp1 : s1.phase = .run [] := by rw [e1, hphase]; exact hph
+          rw [e]
+          show P0 d nodes s1 + phaseBit s1.phase < _
+          rw [hp1, hph]; simp only [phaseBit]
+          rw [e1]; omega
+      · simp only [Option.some.injEq] at hs; subst hs
+        have e : P0 d nodes { s with queue := q, received := updF s.received i (j :: s.received i) } + 1 =
+            P0 d nodes s := by
+          have : weight d { s with queue := q, received := updF s.received i (j :: s.received i) } = weight d s := by
+            funext x; simp [weight]
+          simp only [P0, this, hqlen]; omega
+        show P0 d nodes { s with queue := q, received := updF s.received i (j :: s.received i) } +
+          phaseBit s.phase < _
+        omega
+    · simp at hs
+  | complete k =>
+    simp only [step] at hs
+    split at hs
+    · rename_i r hph
+      split at hs
+      · rename_i hk
+        have hkm : k ∈ nodes := hcover k (hm k (by simp [hk]))
+        have hw : weight d s k = 1 + (d.down k).length := by simp [weight, hk]
+        split at hs
+        · simp only [Option.some.injEq] at hs; subst hs
+          have hwc := weight_change d nodes hn s (finishFail s k (if cfg.reportExecFailure then s.errs ++ [k] else s.errs))
+            k hkm (by intro x hx; simp [finishFail, updF, hx])
+          have hw' : weight d (finishFail s k (if cfg.reportExecFailure then s.errs ++ [k] else s.errs)) k = 0 := by
+            simp [weight, finishFail]
+          show P0 d nodes (finishFail s k (if cfg.reportExecFailure then s.errs ++ [k] else s.errs)) +
+            phaseBit s.phase < _
+          have hq : (finishFail s k (if cfg.reportExecFailure then s.errs ++ [k] else s.errs)).queue = s.queue := rfl
+          simp only [P0, hq]
+          omega
+        · simp only [Option.some.injEq] at hs; subst hs
+          have hwc := weight_change d nodes hn s (finishOk d s k) k hkm (by intro x hx; simp [finishOk, updF, hx])
+          have hw' : weight d (finishOk d s k) k = 0 := by simp [weight, finishOk]
+          show P0 d nodes (finishOk d s k) + phaseBit s.phase < _
+          have hq : (finishOk d s k).queue = s.queue ++ emit d k := rfl
+          simp only [P0, hq, List.length_append, emit_length]
+          omega
+      · simp at hs
+    · simp at hs
+  | exit =>
+    simp only [step] at hs
+    split at hs
+    · rename_i hph _ _
+      simp only [Option.some.injEq] at hs; subst hs
+      have e : P0 d nodes { s with phase := Phase.exited } = P0 d nodes s := P0_congr d nodes _ _ rfl rfl
+      rw [e, hph]; simp [phaseBit]
+    · simp at hs
+
+/-- every schedule is finite: the number of actions performed is bounded by the initial potential -/
+theorem runActs_bounded (cfg : Cfg) (d : Dag) (wf : WF d) (nodes : List Nat) (hn : nodes.Nodup)
+    (hcover : ∀ i, d.member i → i ∈ nodes) (acts : List Act) (s s' : S) (h : Inv cfg d s) (hm : MemInv d s)
+    (hr : runActs cfg d s acts = some s') : acts.length + potential d nodes s' ≤ potential d nodes s := by
+  induction acts generalizing s with
+  | nil => simp [runActs] at hr; subst hr; simp
+  | cons a as ih =>
+    simp only [runActs] at hr
+    split at hr
+    · rename_i s1 hs1
+      have h1 := step_inv cfg d wf s s1 a h hs1
+      have hm1 := step_memInv cfg d wf s s1 a h hm hs1
+      have hd := step_decreases cfg d wf nodes hn hcover s s1 a h hm hs1
+      have := ih s1 h1 hm1 hr
+      simp only [List.length_cons]
+      omega
+    · simp at hr
+
+end PwVerif.Exec
